@@ -136,6 +136,8 @@ class CallMixin:
                 return [self.val(st, VObj(fresh_const("doc", ty.IntS)))]
             if v.kind == "ext":
                 return [self.val(st, self.ext_symbol(f"{v.name}.{name}", st))]
+            if v.kind == "builtin" and v.name == "dict" and name == "fromkeys":
+                return [self.val(st, VFn("dict_fromkeys", name="fromkeys"))]
             raise EngineError(f"attribute {name} of function {v!r}")
         if isinstance(v, VConst):
             return [self.val(st, VConst(f"{v.name}.{name}"))]
@@ -301,6 +303,15 @@ class CallMixin:
                 if m and m[0] == "src" and self._is_static(m[2]):
                     return self.call_src_method(m, None, args, kwargs, st, node)
                 return self.call_method(args[0], fn.name, args[1:], kwargs, st, node, start_cls=fn.extra)
+            if k == "dict_fromkeys":
+                # dict.fromkeys(iterable[, value]) over a concrete iterable: exact, and every key maps to the SAME value object (no copy), as in CPython
+                if kwargs or not 1 <= len(args) <= 2:
+                    raise EngineError("dict.fromkeys: unsupported call shape")
+                dflt = args[1] if len(args) > 1 else NONE
+                data = {}
+                for kv in self.concrete_items(args[0], st):
+                    data[self._key_const(kv)] = dflt
+                return [self.val(st, st.new_loc("dict", data))]
             if k == "instdict_get":
                 # obj.__dict__.get(name[, default]): a declared field is always set by the constructor; any other name may or may not have been stored
                 # on the instance (uninterpreted presence, as getattr with a computed name)
